@@ -155,12 +155,14 @@ Lemma tuple4_eq : forall (a a' b b' : frac) (c d : bool), a = a' -> b = b' -> (a
 Proof. intros. subst. reflexivity. Qed.
 
 (** ** the interval of the code = the interval of the specification *)
+Lemma ndigits_one : forall B, 2 <= B -> ndigits B 1 = 1.
+Proof. intros B HB. unfold ndigits. change (Z.to_nat (Z.log2 1 + 1)) with 1%nat. cbn [Z.leb Z.compare ndigits_fuel]. destruct (Z.ltb_spec 1 B); [reflexivity|lia]. Qed.
+
 Section Interval.
   Variables B p sig ex : Z.
   Hypothesis HB : 2 <= B.
   Hypothesis Hp : 0 < p.
   Hypothesis Hnorm : sig mod B <> 0.
-  Hypothesis Hone : Z.abs sig <> 1.
   Hypothesis Hdg : ndigits B (Z.abs sig) <= p.
 
   Let a := Z.abs sig.
@@ -171,6 +173,9 @@ Section Interval.
   Let v := scaled B sig ex 1.
   Let ulp := scaled B 1 (ex + dg - p) 1.
   Let half := scaled B ((B + 1) / 2) (ex + dg - p - 1) 1.
+  (* the bounds on the side of zero of a power of the base: one digit lower *)
+  Let ulp_tz := scaled B 1 (ex + dg - p - 1) 1.
+  Let half_tz := scaled B ((B + 1) / 2) (ex + dg - p - 1 - 1) 1.
 
   Lemma sig_nz : sig <> 0.
   Proof. intros E. apply Hnorm. rewrite E. apply Z.mod_0_l. lia. Qed.
@@ -194,27 +199,48 @@ Section Interval.
   Lemma half_units : uval B t half ((B + 1) / 2) 1.
   Proof. apply (uval_scaled B t B_pos). lia. Qed.
 
+  Lemma ulp_tz_units : uval B t ulp_tz 1 1.
+  Proof. apply (uval_scaled B t B_pos). lia. Qed.
+
+  (** in an even base ceil(B/2) * B^(t-1) is half a unit B^t *)
+  Lemma half_tz_units : Z.odd B = false -> uval B t half_tz 1 2.
+  Proof.
+    intros Hodd. pose proof (half_even_base B Hodd) as Hh. set (h := (B + 1) / 2) in *.
+    unfold half_tz. fold h. replace (ex + dg - p - 1 - 1) with (t - 1) by (unfold t; ring).
+    pose proof (scaled_val B h (t - 1) 1 (Z.abs t + 1) B_pos ltac:(lia) ltac:(lia) ltac:(lia)) as E.
+    set (s := scaled B h (t - 1) 1) in *. unfold uval.
+    replace (t - 1 + (Z.abs t + 1)) with (t + Z.abs t) in E by ring.
+    rewrite Z.pow_add_r, Z.pow_1_r in E by lia.
+    set (BK := B ^ Z.abs t) in *. set (P := B ^ (t + Z.abs t)) in *.
+    assert (Hh0 : 0 < h) by lia.
+    apply (Z.mul_cancel_r _ _ h); [lia|].
+    transitivity (fst s * 1 * (BK * (2 * h))); [ring|]. rewrite Hh.
+    transitivity (h * P * snd s); [exact E|ring].
+  Qed.
+
   Lemma v_pos : 0 < snd v. Proof. apply scaled_pos; [exact B_pos|lia]. Qed.
   Lemma ulp_pos : 0 < snd ulp. Proof. apply scaled_pos; [exact B_pos|lia]. Qed.
   Lemma half_pos : 0 < snd half. Proof. apply scaled_pos; [exact B_pos|lia]. Qed.
+  Lemma ulp_tz_pos : 0 < snd ulp_tz. Proof. apply scaled_pos; [exact B_pos|lia]. Qed.
+  Lemma half_tz_pos : 0 < snd half_tz. Proof. apply scaled_pos; [exact B_pos|lia]. Qed.
 
-  (** f - l and f + r in units of B^t / 2 *)
-  Lemma end_sub : forall l Xl Y, 0 < snd l -> uval B t l Xl 1 -> Y = 2 * (sig * B ^ j - Xl) ->
-    freduce (fsub v l) = scaled B Y t 2.
+  (** f - l and f + r in units of B^t / 2 (l, r given as Xl / Dl units of B^t) *)
+  Lemma end_sub : forall l Xl Dl Y, 0 < snd l -> 0 < Dl -> uval B t l Xl Dl ->
+    Y * Dl = 2 * (sig * B ^ j * Dl - Xl) -> freduce (fsub v l) = scaled B Y t 2.
   Proof.
-    intros l Xl Y Hl Ul ->.
-    apply (uval_inj B t B_pos _ _ (sig * B ^ j * 1 - Xl * 1) (1 * 1) (2 * (sig * B ^ j - Xl)) 2); try lia.
+    intros l Xl Dl Y Hl HDl Ul HY.
+    apply (uval_inj B t B_pos _ _ (sig * B ^ j * Dl - Xl * 1) (1 * Dl) Y 2); try lia.
     - apply freduce_canon. unfold fsub. cbn [snd]. pose proof v_pos. nia.
     - apply scaled_canon; [exact B_pos|lia].
     - apply uval_sub; [exact B_pos|exact v_pos|exact Hl|exact v_units|exact Ul].
     - apply uval_scaled; [exact B_pos|lia].
   Qed.
 
-  Lemma end_add : forall r Xr Y, 0 < snd r -> uval B t r Xr 1 -> Y = 2 * (sig * B ^ j + Xr) ->
-    freduce (fadd v r) = scaled B Y t 2.
+  Lemma end_add : forall r Xr Dr Y, 0 < snd r -> 0 < Dr -> uval B t r Xr Dr ->
+    Y * Dr = 2 * (sig * B ^ j * Dr + Xr) -> freduce (fadd v r) = scaled B Y t 2.
   Proof.
-    intros r Xr Y Hr Ur ->.
-    apply (uval_inj B t B_pos _ _ (sig * B ^ j * 1 + Xr * 1) (1 * 1) (2 * (sig * B ^ j + Xr)) 2); try lia.
+    intros r Xr Dr Y Hr HDr Ur HY.
+    apply (uval_inj B t B_pos _ _ (sig * B ^ j * Dr + Xr * 1) (1 * Dr) Y 2); try lia.
     - apply freduce_canon. unfold fadd. cbn [snd]. pose proof v_pos. nia.
     - apply scaled_canon; [exact B_pos|lia].
     - apply uval_add; [exact B_pos|exact v_pos|exact Hr|exact v_units|exact Ur].
@@ -230,11 +256,18 @@ Section Interval.
   Lemma c_neg_sig : sig < 0 -> 2 * (sig * B ^ j) = - c.
   Proof. intros H. unfold c, a. rewrite Bj, Z.abs_neq by lia. ring. Qed.
 
-  Lemma pw_false : (a * B ^ (p - dg) =? B ^ (p - 1)) = false.
+  Lemma pw_false : Z.abs sig <> 1 -> (a * B ^ (p - dg) =? B ^ (p - 1)) = false.
   Proof.
+    intros Hone.
     apply not_pow_base; [exact HB|exact a_pos| |exact Hone|exact dg_range].
     unfold a. intros E. apply Hnorm. apply Z.mod_divide; [lia|]. apply Z.mod_divide in E; [|lia].
     exact (proj1 (Z.divide_abs_r B sig) E).
+  Qed.
+
+  Lemma pw_true : Z.abs sig = 1 -> dg = 1 /\ (a * B ^ (p - dg) =? B ^ (p - 1)) = true.
+  Proof.
+    intros Hone. assert (Hd : dg = 1) by (unfold dg, a; rewrite Hone; apply ndigits_one; exact HB).
+    split; [exact Hd|]. unfold a. rewrite Hone, Hd, Z.mul_1_l. apply Z.eqb_refl.
   Qed.
 
   (** HalfEven after the repair of F05: the code's tie flag is the parity of the p-digit significand *)
@@ -248,91 +281,142 @@ Section Interval.
     - replace (p - dg) with 0 by lia. rewrite Z.pow_0_r. rewrite Bool.andb_false_r. reflexivity.
   Qed.
 
+  Lemma mod2_even : (B mod 2 =? 0) = Z.even B.
+  Proof. rewrite Zmod_even. destruct (Z.even B); reflexivity. Qed.
+
+  Ltac end_tac Hc :=
+    first
+      [ apply (end_sub (0, 1) 0 1); [cbn [snd]; lia|lia|apply uval_zero|lia]
+      | apply (end_add (0, 1) 0 1); [cbn [snd]; lia|lia|apply uval_zero|lia]
+      | apply (end_sub ulp B 1); [exact ulp_pos|lia|exact ulp_units|lia]
+      | apply (end_add ulp B 1); [exact ulp_pos|lia|exact ulp_units|lia]
+      | apply (end_sub ulp_tz 1 1); [exact ulp_tz_pos|lia|exact ulp_tz_units|lia]
+      | apply (end_add ulp_tz 1 1); [exact ulp_tz_pos|lia|exact ulp_tz_units|lia] ].
+
+  (** a significand other than +-1: both sides of the float have the same spacing *)
+  Lemma interval_asis_spec_nonpow : Z.abs sig <> 1 -> forall md, known_float B md p sig = false ->
+    match error_bounds_asis B md p sig ex with
+    | Ok (l, r, il, ir) => (freduce (fsub v l), freduce (fadd v r), il, ir) = float_interval_spec B md p sig ex
+    | _ => False
+    end.
+  Proof.
+    intros Hone md Hk. unfold known_float, known_oddbase in Hk.
+    assert (Hp0 : (p =? 0) = false) by (apply Z.eqb_neq; lia).
+    rewrite Hp0 in Hk. cbn [negb andb orb] in Hk.
+    assert (Hodd : is_half md = true -> Z.odd B = false).
+    { intros Hh. rewrite Hh in Hk. cbn [andb orb] in Hk. exact Hk. }
+    clear Hk.
+    pose proof (pw_false Hone) as Hpw. pose proof v_pos as Hv. pose proof half_pos as Hh.
+    pose proof half_units as Uh.
+    assert (Hnp : is_power_of_base sig = false) by (unfold is_power_of_base; apply Z.eqb_neq; exact Hone).
+    unfold error_bounds_asis, float_interval_spec. rewrite Hp0, Hnp. cbv zeta. rewrite !Z.sub_0_r.
+    fold a. fold dg. rewrite Hpw.
+    fold ulp half v. rewrite ?incl_even.
+    replace (ex + dg - p - 1) with t by reflexivity.
+    fold c.
+    destruct (Z.ltb_spec sig 0) as [Hneg|Hpos].
+    - pose proof (c_neg_sig Hneg) as Hc.
+      destruct md; cbn [is_half] in *; try discriminate; rewrite ?neg_end;
+        try (apply tuple4_eq; end_tac Hc).
+      + pose proof (half_even_base B (Hodd eq_refl)) as HBh.
+        assert (HU : 2 * B / 2 = B) by (rewrite Z.mul_comm; apply Z.div_mul; lia). rewrite !HU.
+        apply tuple4_eq.
+        * apply (end_sub half ((B + 1) / 2) 1); [exact Hh|lia|exact Uh|lia].
+        * apply (end_add half ((B + 1) / 2) 1); [exact Hh|lia|exact Uh|lia].
+      + pose proof (half_even_base B (Hodd eq_refl)) as HBh.
+        assert (HU : 2 * B / 2 = B) by (rewrite Z.mul_comm; apply Z.div_mul; lia). rewrite !HU.
+        apply tuple4_eq.
+        * apply (end_sub half ((B + 1) / 2) 1); [exact Hh|lia|exact Uh|lia].
+        * apply (end_add half ((B + 1) / 2) 1); [exact Hh|lia|exact Uh|lia].
+    - pose proof (c_pos_sig Hpos) as Hc.
+      destruct md; cbn [is_half] in *; try discriminate;
+        try (apply tuple4_eq; end_tac Hc).
+      + pose proof (half_even_base B (Hodd eq_refl)) as HBh.
+        assert (HU : 2 * B / 2 = B) by (rewrite Z.mul_comm; apply Z.div_mul; lia). rewrite !HU.
+        apply tuple4_eq.
+        * apply (end_sub half ((B + 1) / 2) 1); [exact Hh|lia|exact Uh|lia].
+        * apply (end_add half ((B + 1) / 2) 1); [exact Hh|lia|exact Uh|lia].
+      + pose proof (half_even_base B (Hodd eq_refl)) as HBh.
+        assert (HU : 2 * B / 2 = B) by (rewrite Z.mul_comm; apply Z.div_mul; lia). rewrite !HU.
+        apply tuple4_eq.
+        * apply (end_sub half ((B + 1) / 2) 1); [exact Hh|lia|exact Uh|lia].
+        * apply (end_add half ((B + 1) / 2) 1); [exact Hh|lia|exact Uh|lia].
+  Qed.
+
+  (** a power of the base (repair of F07): towards zero the floats are B times denser, the code's
+      towards_zero lowers that bound by one digit, and HalfEven includes the tie on that side iff B is even *)
+  Lemma interval_asis_spec_pow : Z.abs sig = 1 -> forall md, known_float B md p sig = false ->
+    match error_bounds_asis B md p sig ex with
+    | Ok (l, r, il, ir) => (freduce (fsub v l), freduce (fadd v r), il, ir) = float_interval_spec B md p sig ex
+    | _ => False
+    end.
+  Proof.
+    intros Hone md Hk. unfold known_float, known_oddbase in Hk.
+    assert (Hp0 : (p =? 0) = false) by (apply Z.eqb_neq; lia).
+    rewrite Hp0 in Hk. cbn [negb andb orb] in Hk.
+    assert (Hodd : is_half md = true -> Z.odd B = false).
+    { intros Hh. rewrite Hh in Hk. cbn [andb orb] in Hk. exact Hk. }
+    clear Hk.
+    destruct (pw_true Hone) as (Hd1 & Hpw). pose proof v_pos as Hv. pose proof half_pos as Hh.
+    pose proof half_units as Uh. pose proof half_tz_pos as Hhz.
+    assert (Hnp : is_power_of_base sig = true) by (unfold is_power_of_base; apply Z.eqb_eq; exact Hone).
+    unfold error_bounds_asis, float_interval_spec. rewrite Hp0, Hnp. cbv zeta.
+    fold a. fold dg. rewrite Hpw.
+    fold ulp half v ulp_tz half_tz. rewrite ?incl_even, ?mod2_even.
+    replace (ex + dg - p - 1) with t by reflexivity.
+    fold c. change (2 / 2) with 1.
+    destruct (Z.ltb_spec sig 0) as [Hneg|Hpos].
+    - pose proof (c_neg_sig Hneg) as Hc.
+      destruct md; cbn [is_half] in *; try discriminate; rewrite ?neg_end;
+        try (apply tuple4_eq; end_tac Hc).
+      + pose proof (half_even_base B (Hodd eq_refl)) as HBh. pose proof (half_tz_units (Hodd eq_refl)) as Uhz.
+        assert (HU : 2 * B / 2 = B) by (rewrite Z.mul_comm; apply Z.div_mul; lia). rewrite !HU.
+        apply tuple4_eq.
+        * apply (end_sub half ((B + 1) / 2) 1); [exact Hh|lia|exact Uh|lia].
+        * apply (end_add half_tz 1 2); [exact Hhz|lia|exact Uhz|lia].
+      + pose proof (half_even_base B (Hodd eq_refl)) as HBh. pose proof (half_tz_units (Hodd eq_refl)) as Uhz.
+        assert (HU : 2 * B / 2 = B) by (rewrite Z.mul_comm; apply Z.div_mul; lia). rewrite !HU.
+        apply tuple4_eq.
+        * apply (end_sub half ((B + 1) / 2) 1); [exact Hh|lia|exact Uh|lia].
+        * apply (end_add half_tz 1 2); [exact Hhz|lia|exact Uhz|lia].
+    - pose proof (c_pos_sig Hpos) as Hc.
+      destruct md; cbn [is_half] in *; try discriminate;
+        try (apply tuple4_eq; end_tac Hc).
+      + pose proof (half_even_base B (Hodd eq_refl)) as HBh. pose proof (half_tz_units (Hodd eq_refl)) as Uhz.
+        assert (HU : 2 * B / 2 = B) by (rewrite Z.mul_comm; apply Z.div_mul; lia). rewrite !HU.
+        apply tuple4_eq.
+        * apply (end_sub half_tz 1 2); [exact Hhz|lia|exact Uhz|lia].
+        * apply (end_add half ((B + 1) / 2) 1); [exact Hh|lia|exact Uh|lia].
+      + pose proof (half_even_base B (Hodd eq_refl)) as HBh. pose proof (half_tz_units (Hodd eq_refl)) as Uhz.
+        assert (HU : 2 * B / 2 = B) by (rewrite Z.mul_comm; apply Z.div_mul; lia). rewrite !HU.
+        apply tuple4_eq.
+        * apply (end_sub half_tz 1 2); [exact Hhz|lia|exact Uhz|lia].
+        * apply (end_add half ((B + 1) / 2) 1); [exact Hh|lia|exact Uh|lia].
+  Qed.
+
   Theorem interval_asis_spec : forall md, known_float B md p sig = false ->
     match error_bounds_asis B md p sig ex with
     | Ok (l, r, il, ir) => (freduce (fsub v l), freduce (fadd v r), il, ir) = float_interval_spec B md p sig ex
     | _ => False
     end.
   Proof.
-    intros md Hk. unfold known_float, known_oddbase, known_powbase in Hk.
-    assert (Hp0 : (p =? 0) = false) by (apply Z.eqb_neq; lia).
-    rewrite Hp0 in Hk. cbn [negb andb orb] in Hk.
-    assert (Hodd : is_half md = true -> Z.odd B = false).
-    { intros Hh. rewrite Hh in Hk. cbn [andb orb] in Hk. destruct (Z.odd B); [discriminate|reflexivity]. }
-    clear Hk.
-    pose proof pw_false as Hpw. pose proof v_pos as Hv. pose proof ulp_pos as Hu. pose proof half_pos as Hh.
-    pose proof ulp_units as Uu. pose proof half_units as Uh. pose proof (uval_zero B t) as Uz.
-    unfold error_bounds_asis, float_interval_spec. rewrite Hp0. cbv zeta. fold a. fold dg. rewrite Hpw.
-    fold ulp half v. rewrite ?incl_even.
-    replace (ex + dg - p - 1) with t by reflexivity.
-    fold c.
-    destruct (Z.ltb_spec sig 0) as [Hneg|Hpos].
-    - pose proof (c_neg_sig Hneg) as Hc.
-      destruct md; cbn [is_half] in *; try discriminate.
-      + (* Zero *) rewrite !neg_end. apply tuple4_eq.
-        * apply (end_sub ulp B); [exact Hu|exact Uu|lia].
-        * apply (end_add (0, 1) 0); [cbn [snd]; lia|exact Uz|lia].
-      + (* Away *) rewrite !neg_end. apply tuple4_eq.
-        * apply (end_sub (0, 1) 0); [cbn [snd]; lia|exact Uz|lia].
-        * apply (end_add ulp B); [exact Hu|exact Uu|lia].
-      + (* Up *) rewrite !neg_end. apply tuple4_eq.
-        * apply (end_sub ulp B); [exact Hu|exact Uu|lia].
-        * apply (end_add (0, 1) 0); [cbn [snd]; lia|exact Uz|lia].
-      + (* Down *) rewrite !neg_end. apply tuple4_eq.
-        * apply (end_sub (0, 1) 0); [cbn [snd]; lia|exact Uz|lia].
-        * apply (end_add ulp B); [exact Hu|exact Uu|lia].
-      + (* HalfEven *) pose proof (half_even_base B (Hodd eq_refl)) as HBh.
-        assert (HU : 2 * B / 2 = B) by (rewrite Z.mul_comm; apply Z.div_mul; lia). rewrite !HU.
-        rewrite !neg_end. apply tuple4_eq.
-        * apply (end_sub half ((B + 1) / 2)); [exact Hh|exact Uh|lia].
-        * apply (end_add half ((B + 1) / 2)); [exact Hh|exact Uh|lia].
-      + (* HalfAway *) pose proof (half_even_base B (Hodd eq_refl)) as HBh.
-        assert (HU : 2 * B / 2 = B) by (rewrite Z.mul_comm; apply Z.div_mul; lia). rewrite !HU.
-        rewrite !neg_end. apply tuple4_eq.
-        * apply (end_sub half ((B + 1) / 2)); [exact Hh|exact Uh|lia].
-        * apply (end_add half ((B + 1) / 2)); [exact Hh|exact Uh|lia].
-    - pose proof (c_pos_sig Hpos) as Hc.
-      destruct md; cbn [is_half] in *; try discriminate.
-      + apply tuple4_eq.
-        * apply (end_sub (0, 1) 0); [cbn [snd]; lia|exact Uz|lia].
-        * apply (end_add ulp B); [exact Hu|exact Uu|lia].
-      + apply tuple4_eq.
-        * apply (end_sub ulp B); [exact Hu|exact Uu|lia].
-        * apply (end_add (0, 1) 0); [cbn [snd]; lia|exact Uz|lia].
-      + apply tuple4_eq.
-        * apply (end_sub ulp B); [exact Hu|exact Uu|lia].
-        * apply (end_add (0, 1) 0); [cbn [snd]; lia|exact Uz|lia].
-      + apply tuple4_eq.
-        * apply (end_sub (0, 1) 0); [cbn [snd]; lia|exact Uz|lia].
-        * apply (end_add ulp B); [exact Hu|exact Uu|lia].
-      + pose proof (half_even_base B (Hodd eq_refl)) as HBh.
-        assert (HU : 2 * B / 2 = B) by (rewrite Z.mul_comm; apply Z.div_mul; lia). rewrite !HU.
-        apply tuple4_eq.
-        * apply (end_sub half ((B + 1) / 2)); [exact Hh|exact Uh|lia].
-        * apply (end_add half ((B + 1) / 2)); [exact Hh|exact Uh|lia].
-      + pose proof (half_even_base B (Hodd eq_refl)) as HBh.
-        assert (HU : 2 * B / 2 = B) by (rewrite Z.mul_comm; apply Z.div_mul; lia). rewrite !HU.
-        apply tuple4_eq.
-        * apply (end_sub half ((B + 1) / 2)); [exact Hh|exact Uh|lia].
-        * apply (end_add half ((B + 1) / 2)); [exact Hh|exact Uh|lia].
+    intros md Hk. destruct (Z.eq_dec (Z.abs sig) 1) as [E|NE].
+    - exact (interval_asis_spec_pow E md Hk).
+    - exact (interval_asis_spec_nonpow NE md Hk).
   Qed.
 End Interval.
 
-(** ** the headline: outside the four open classes the code computes the specified optimum *)
+(** ** the headline: outside the open class F06 the code computes the specified optimum *)
 Theorem simplest_from_float_asis_spec : forall B md p sig ex,
   2 <= B -> 0 < p -> sig mod B <> 0 -> ndigits B (Z.abs sig) <= p ->
   known_float B md p sig = false ->
   simplest_from_float_asis B md p sig ex = simplest_from_float_spec B md p sig ex.
 Proof.
   intros B md p sig ex HB Hp Hnorm Hdg Hk.
-  assert (Hone : Z.abs sig <> 1).
-  { unfold known_float, known_powbase in Hk. destruct (Z.eqb_spec (Z.abs sig) 1) as [E|NE]; [|exact NE].
-    replace (p =? 0) with false in Hk by (symmetry; apply Z.eqb_neq; lia). cbn [negb andb] in Hk.
-    rewrite Bool.orb_true_r in Hk. discriminate. }
   rewrite simplest_from_float_asis_closed by lia. rewrite (fnormalize_id B sig ex Hnorm).
   unfold simplest_from_float_spec.
   assert (Hs : (sig =? 0) = false) by (apply Z.eqb_neq; intros ->; apply Hnorm; apply Z.mod_0_l; lia). rewrite Hs.
-  pose proof (interval_asis_spec B p sig ex HB Hp Hnorm Hone Hdg md Hk) as H.
+  pose proof (interval_asis_spec B p sig ex HB Hp Hnorm Hdg md Hk) as H.
   destruct (error_bounds_asis B md p sig ex) as [[[[l r] il] ir]| | |]; try contradiction.
   rewrite H. destruct (simplest_closed _); reflexivity.
 Qed.
